@@ -407,6 +407,8 @@ def p_number(I, n, pos, kw):
 def p_str(I, n, pos, kw):
     if pos and isinstance(pos[0], StrV):
         return pos[0]
+    if len(pos) == 1 and not kw and isinstance(pos[0], Sc) and pos[0].e is not None:
+        return StrV("<formatted>", arg=pos[0].e)
     return StrV("<formatted>")
 
 
@@ -580,6 +582,21 @@ def p_diag(I, n, pos, kw):
         sp, iv = v.axes[0]
         return DiagMat(sp.size, iv, v.elem, sym.ZERO)
     return I.unknown("diag", n)
+
+
+@prim("numpy.empty_like", "numpy.full_like")
+def p_empty_like(I, n, pos, kw):
+    a = arrays.to_arr(pos[0])
+    if isinstance(a, (Blocks, DiagMat)):
+        a = arrays.densify(a)
+    if not isinstance(a, Arr):
+        return I.unknown("like", n)
+    if "full_like" in I.log[-1]["target"]:
+        fv = _kw(kw, pos, "fill_value", 1)
+        if not isinstance(fv, Sc) or fv.e is None:
+            return I.unknown("np.full_like-value", n)
+        return Arr([(sp, fresh()) for sp, _ in a.axes], fv.e, "nd")
+    return Arr([(sp, fresh()) for sp, _ in a.axes], sym.Opq("uninitialised", (), None), "nd")
 
 
 @prim("numpy.empty")
@@ -1165,6 +1182,8 @@ def m_extend(I, n, recv, pos, kw):
 
 @method("format")
 def m_format(I, n, recv, pos, kw):
+    if isinstance(recv, StrV) and recv.s == "{}" and len(pos) == 1 and not kw and isinstance(pos[0], Sc) and pos[0].e is not None:
+        return StrV("<formatted>", arg=pos[0].e)
     return StrV("<formatted>")
 
 
